@@ -213,7 +213,65 @@ def gen_c09(tier, rng):
         case.schedule = schedule_for(case, fe, rng, rng.choice(["frames", "frames", "whole", "random"]))
         pr = build_frames(kind, [(cfg["hosted"][0], 77, dm.pdu_read(3, 0, 2))])[0]
         traces.append(run_case(case, probe=None))
+    # TLC-generated behaviours of ServerMC replayed into the stream front-ends
+    hs, _ = tlc_server_histories(400 if tier == "quick" else 4000, 6, seed() % 100000)
+    rng.shuffle(hs)
+    for j, h in enumerate(hs[:240 if tier == "quick" else 3000]):
+        fes = [fe for fe in D.STREAM_FES if not (h["broadcast"] and not D.FRONTENDS[fe].supports_broadcast)]
+        traces.append(replay_server_history("g%d" % j, h, fes[j % len(fes)], rng))
     return traces
+
+
+def tlc_server_histories(n, depth, tlc_seed):
+    """random behaviours of ServerGen (tlc -simulate), de-duplicated"""
+    from vcommon import run_tlc, parse_printed
+    import json as _json
+    cfg = open(os.path.join(SPEC, "ServerGen.cfg")).read().replace("GenDepth = 6", "GenDepth = %d" % depth)
+    res = run_tlc("ServerGen", None, workers=1, timeout=600, cfg_text=cfg,
+                  extra=["-simulate", "num=%d" % n, "-depth", str(depth + 1), "-seed", str(tlc_seed)])
+    hs = parse_printed(res["out"], "HIST")
+    if not hs:
+        raise MachineryError("ServerGen produced no behaviours:\n" + "\n".join(res["out"].splitlines()[-20:]))
+    seen, out = set(), []
+    for h in hs:
+        key = _json.dumps(h, sort_keys=True)
+        if key not in seen:
+            seen.add(key)
+            out.append(h)
+    return out, res
+
+
+def replay_server_history(tid, h, fe, rng):
+    """one ServerGen behaviour replayed into a real stream front-end (MBAP framing): whole frames, or a frame split in two
+    reads with the other connection's traffic in between"""
+    cfg = {"single": 1 if h["single"] else 0, "hosted": sorted(h["hosted"]), "broadcast": 1 if h["broadcast"] else 0,
+           "ignore": 1 if h["ignore"] else 0}
+    ctx1 = lambda: dm.layout(1, dm.seq_block(0, 1), None, dm.seq_block(0, 1), None, shared=True)
+    units = [[0, ctx1()]] if cfg["single"] else [[u, ctx1()] for u in cfg["hosted"]]
+    case = Case(tid, "strict", fe, "tcp", cfg, units)
+    per = {1: [], 2: []}
+    sched = []
+    half = {}
+    for e in h["hist"]:
+        c = e["c"]
+        if e["op"] in ("whole", "part"):
+            fr = build_frames("tcp", [(e["uid"], 7, bytes(e["pdu"]))])[0]
+            per[c].append(fr)
+            n = len(fr["bytes"])
+            if e["op"] == "whole":
+                sched.append((c, n))
+            else:
+                k = rng.randint(1, n - 1)
+                half[c] = n - k
+                sched.append((c, k))
+        elif e["op"] == "rest" and c in half:
+            sched.append((c, half.pop(c)))
+    case.add_conn(per[1])
+    case.add_conn(per[2])
+    case.schedule = sched
+    t = run_case(case)
+    t["source"] = "tlc"
+    return t
 
 
 def gen_c10(tier, rng):
